@@ -584,6 +584,16 @@ func (g *gen) expr(t string, depth int) *Expr {
 				}
 				return eCall("bump")
 			case 0:
+				switch r.Intn(3) {
+				case 0:
+					return eCall("cadd", eNum(r.Intn(7), 1), eNum(r.Intn(5), 1))
+				case 1:
+					args := []*Expr{eNum(r.Intn(7), 1)}
+					for i := r.Intn(4); i > 0; i-- {
+						args = append(args, eNum(r.Intn(9)-2, 1))
+					}
+					return eCall("csum", args...)
+				}
 				return eCall("cint", eNum(r.Intn(7), 1))
 			case 1:
 				// the numeric built-ins, on dyadic arguments of both signs (halves included)
@@ -678,6 +688,11 @@ func (g *gen) faultyExpr(t string, depth int) *Expr {
 		}
 		if t == "s" {
 			return eCall("cstr", g.expr("n", 0)) // wrong argument type for a converted function
+		}
+		if t == "n" {
+			// ... at a later position, after earlier arguments were converted
+			return []*Expr{eCall("cadd", eNum(10, 1), eStr("two")), eCall("csum", eNum(1, 1), eStr("three")),
+				eCall("csum", eNum(1, 1), eNum(2, 1), eBool(true)), eCall("cadd", eNum(1, 1)), eCall("cadd", eNum(1, 1), eNum(2, 1), eNum(3, 1))}[r.Intn(5)]
 		}
 		return eCall("cbool", g.expr("s", 0), g.expr("b", 0)) // wrong count
 	case 0:
